@@ -283,7 +283,7 @@ theorem fuels_accounted : dnsLoopFuels =
 
 /-- the assumptions of the translation (design_notes/bG.md reviews each) -/
 theorem assumptions_accounted : dnsLoopAssumptions.map (·.1) =
-    ["appendValue", "capEqLen", "errValuesDropped", "intNoOverflow", "logsDropped", "nilIsEmpty", "noAlias", "ptrInOut"] := by decide
+    ["appendValue", "capEqLen", "errValuesDropped", "intNoOverflow", "logsDropped", "nilIsEmpty", "noAlias", "ptrInOut", "recvState"] := by decide
 
 /-- the standard-library functions on the translated paths and what stands for each -/
 theorem externs_accounted : dnsLoopExterns =
